@@ -140,3 +140,59 @@ func ZZH_C17_caller_identity() {
 		zz.Assert("C17.identity.anybody-else-refused", err != nil && !ok)
 	}
 }
+
+// ZZH_C17_two_registries: a process holds more than one registry of contract objects (each worker of
+// the parallel executor has its own; the executor builds a fresh one per EVM interchain log). An
+// earlier, legitimate nested call on one registry - the contract at the interchain address begins a
+// transaction - must not change what a later direct call on ANOTHER registry is allowed to do: an
+// external account's Begin / Report on the transaction manager is refused and writes nothing.
+func ZZH_C17_two_registries() {
+	lg, err := ledger.New(nil, zz.NewStore(), zz.NewStore(), zz.NewBlockFile(), nil, zz.Logger())
+	if err != nil {
+		panic(err)
+	}
+	outsider := types.NewAddressByStr("0x9999999999999999999999999999999999999999")
+	other := types.NewAddressByStr("0x00000000000000000000000000000000000000A1")
+	inter := constant.InterchainContractAddr.Address()
+	tm := constant.TransactionMgrContractAddr.Address()
+	registry := func() map[string]agency.Contract {
+		return map[string]agency.Contract{
+			other.String(): &zzRelay{},
+			inter.String(): &zzRelay{},
+			tm.String():    &contracts.TransactionManager{},
+		}
+	}
+	regs := []map[string]agency.Contract{registry(), registry()}
+	run := func(cs map[string]agency.Contract, to *types.Address, method string, args ...*pb.Arg) error {
+		ip := &pb.InvokePayload{Method: method, Args: args}
+		input, _ := ip.Marshal()
+		tx := &pb.BxhTransaction{From: outsider, To: to, TransactionHash: types.NewHashByStr("0x1111111111111111111111111111111111111111111111111111111111111111")}
+		ctx := vm.NewContext(tx, 0, nil, 2, lg, zz.Logger(), false, nil)
+		_, _, err := New(ctx, nil, nil, cs).Run(input, 0)
+		return err
+	}
+	first := zz.Choice("earlierCallOn", 3) // 0: none, 1: the same registry, 2: the other registry
+	if first != 0 {
+		err := run(regs[first-1], inter, "RelayBegin", pb.String(tm.String()))
+		zz.Assert("C17.registries.designated-contract-accepted", err == nil)
+	}
+	id2 := "1356:chA:s1-1356:chB:s2-2"
+	var err2 error
+	switch zz.Choice("attempt", 3) {
+	case 0:
+		err2 = run(regs[0], tm, "Begin", pb.String(id2), pb.Uint64(0), pb.Bool(false))
+	case 1:
+		err2 = run(regs[0], tm, "Report", pb.String("1356:chA:s1-1356:chB:s2-1"), pb.Int32(int32(pb.IBTP_RECEIPT_SUCCESS)))
+	case 2:
+		err2 = run(regs[0], tm, "BeginMultiTXs", pb.String("0xGROUP"), pb.String(id2), pb.Uint64(0), pb.Bool(false), pb.Uint64(1))
+	}
+	zz.Assert("C17.registries.direct-call-refused", err2 != nil)
+	ok, _ := lg.GetState(tm, []byte(contracts.TxInfoKey(id2)))
+	ok2, _ := lg.GetState(tm, []byte(contracts.GlobalTxInfoKey("0xGROUP")))
+	zz.Assert("C17.registries.nothing-written", !ok && !ok2)
+	if first != 0 {
+		var rec pb.TransactionRecord
+		okr, v := lg.GetState(tm, []byte(contracts.TxInfoKey("1356:chA:s1-1356:chB:s2-1")))
+		zz.Assert("C17.registries.earlier-record-untouched", okr && rec.Unmarshal(v) == nil && rec.Status == pb.TransactionStatus_BEGIN)
+	}
+}
